@@ -82,3 +82,12 @@ def window_sum(df, before=0, after=0):
     w = before + after + 1
     out = df.astype("float64").rolling(w, min_periods=w).sum().shift(-after)
     return out
+
+
+def row_nansum(row):
+    """row-wise UDF for DataFrame.apply(axis=1): needs every column of its input"""
+    return float(np.nansum(row.to_numpy(dtype="float64")))
+
+
+def plus_one(v):
+    return v + 1
